@@ -696,6 +696,11 @@ def evaluate(ctx, cases, builds, drv, param_size, prop="C04"):
     if not ok:
         ctx.tie_broken("extracted decoder model crashed", err)
         mout = [None] * len(model_lines)
+    else:
+        # the extracted driver against Coq's own evaluation of the same definitions, on a sample of this run's lines
+        import wirecross
+        wirecross.cross(ctx, list(zip(model_lines, mout)), ctx.sub_rng("coqcross-%d" % len(model_lines)),
+                        600 if ctx.tier == "thorough" else 80, name="%s_cross" % prop.lower())
     mres = {}
     it = iter(mout)
     for i, c in enumerate(cases):
